@@ -85,6 +85,24 @@ def random_scen(rng):
             "frame0": rng.choice([0, 0, 5000, 1 << 40]), "start": "fresh", "trig": [t], "steps": steps, "data": [xs], "oneblock": True}
 
 
+def relen_scen(rng):
+    """Edge-multi with a change of the record lengths in mid-run: a block ends while an edge is still pending (found, its
+    record not yet cut), the pre-trigger length grows, more data arrive ('no crash ... after a (re)configuration')."""
+    s = random_scen(rng)
+    while len([st for st in s["steps"] if st["k"] == "block"]) < 3:
+        s = random_scen(rng)
+    npre, nsamp = s["npre"], s["nsamp"]
+    blocks = [i for i, st in enumerate(s["steps"]) if st["k"] == "block"]
+    at = rng.choice(blocks[1:])
+    grow = rng.choice([1, 2, 5, 10, nsamp // 2 + 1])
+    npre2 = min(npre + grow, nsamp + npre + 10)
+    nsamp2 = max(nsamp + grow, npre2 + rng.choice([1, 2, 4]))
+    s["steps"].insert(at, {"k": "len", "nsamp": nsamp2, "npre": npre2})
+    s["oneblock"] = False
+    s["origin"] = "relen"
+    return s
+
+
 CONSTS = {"EdgeMultiMC.cfg": {"npre": 4, "nsamp": 8, "thr": 5, "nmono": 1, "mode": "var"},
           "EdgeMultiMCtwo.cfg": {"npre": 4, "nsamp": 8, "thr": 5, "nmono": 1, "mode": "two"},
           "EdgeMultiMCiso.cfg": {"npre": 4, "nsamp": 8, "thr": -5, "nmono": 2, "mode": "iso"},
@@ -128,8 +146,11 @@ def run(ctx):
     rng = random.Random(ctx.seed + 800)
     nr = 250 if q else 5000
     scens += [random_scen(rng) for _ in range(nr)]
+    nl = 150 if q else 3000
+    scens += [relen_scen(rng) for _ in range(nl)]
+    ctx.notes["scenarios_relen"] = nl
     ctx.notes["scenarios_random"] = nr
-    ctx.notes["scenarios_from_model"] = len(scens) - nr
+    ctx.notes["scenarios_from_model"] = len(scens) - nr - nl
     sc.validate(ctx, scens, PREFIXES)
     return vlib.finish(ctx, LEVEL, RULE,
                        ["the zero-threshold refinement is a floating-point fit: an oracle (shift -1/0/+1) in the model, the real function in the replayed executions",
